@@ -295,7 +295,7 @@ def lean_stage(ctx, mod):
                     got[m.group(1)] = [x.strip() for x in m.group(2).replace("\n", " ").split(",") if x.strip()]
                 for m in re.finditer(r"'([^']+)' does not depend on any axioms", out):
                     got[m.group(1)] = []
-                axioms.update(got)
+                axioms.update({t: got[t] for t in sk_thms if t in got})  # a shared audit file prints more than this property's theorems
                 bad = [t for t in sk_thms if t not in got or [x for x in got[t] if x not in ALLOWED_AXIOMS]]
                 tok = forbidden_tokens([module])
                 if a.returncode != 0 or bad or tok:
